@@ -109,6 +109,9 @@ func drawSessApps(t *rapid.T, mss [2]int, maxWrites, maxTotal int) [2]sim.AppScr
 				}
 			}
 		}
+		if rapid.IntRange(0, 2).Draw(t, label+"vectored") == 0 {
+			app[w].VecSeed = rapid.Uint64Range(1, 1<<62).Draw(t, label+"vecseed")
+		}
 		if rapid.IntRange(0, 3).Draw(t, label+"gaps") == 0 {
 			for range app[w].Writes {
 				app[w].GapMs = append(app[w].GapMs, int32(rapid.SampledFrom([]int{0, 0, 1, 30, 250, 700}).Draw(t, label+"gap")))
@@ -130,8 +133,8 @@ func describePair(cfg sim.PairCfg, fs *sim.FateScript, app [2]sim.AppScript) map
 	d := map[string]any{
 		"cfg": fmt.Sprintf("%+v", c),
 		"app": []any{
-			map[string]any{"writes": trim(app[0].Writes), "readbufs": app[0].ReadBufs, "pauses": app[0].Pauses},
-			map[string]any{"writes": trim(app[1].Writes), "readbufs": app[1].ReadBufs, "pauses": app[1].Pauses},
+			map[string]any{"writes": trim(app[0].Writes), "readbufs": app[0].ReadBufs, "pauses": app[0].Pauses, "vecseed": app[0].VecSeed},
+			map[string]any{"writes": trim(app[1].Writes), "readbufs": app[1].ReadBufs, "pauses": app[1].Pauses, "vecseed": app[1].VecSeed},
 		},
 	}
 	if fs != nil {
